@@ -5,6 +5,7 @@ are mapped to one representative first (line numbers of the surviving nodes are 
 
  N1  inert statements (`pass`, bare constant expressions other than docstrings) are dropped;
  N2  `if not X: A else: B` becomes `if X: B else: A`;
+ N4  `a > b` becomes `b < a` (likewise >=), and a constant operand of == / != / is / is not goes to the right;
  N3  a local bound once by `t = E` and read once, in the immediately following simple statement (not under a lambda or a
      comprehension), is replaced by E at that use.
 
@@ -158,9 +159,29 @@ def _n3(tree):
                     break
 
 
+_FLIP = {ast.Gt: ast.Lt, ast.GtE: ast.LtE}
+
+
+def _is_const(e):
+    return isinstance(e, ast.Constant) or (isinstance(e, ast.UnaryOp) and isinstance(e.op, (ast.USub, ast.UAdd)) and isinstance(e.operand, ast.Constant))
+
+
+def _n4(tree):
+    """Comparisons: `a > b` -> `b < a`, `a >= b` -> `b <= a`; for == / != / is / is not with exactly one constant operand the constant goes right."""
+    for node in ast.walk(tree):
+        if isinstance(node, ast.Compare) and len(node.ops) == 1:
+            op = node.ops[0]
+            l, r = node.left, node.comparators[0]
+            if type(op) in _FLIP:
+                node.left, node.comparators[0], node.ops[0] = r, l, _FLIP[type(op)]()
+            elif isinstance(op, (ast.Eq, ast.NotEq, ast.Is, ast.IsNot)) and _is_const(l) and not _is_const(r):
+                node.left, node.comparators[0] = r, l
+
+
 def normalize(tree):
     _n1(tree)
     _n2(tree)
+    _n4(tree)
     _n3(tree)
     ast.fix_missing_locations(tree)
     return tree
